@@ -422,7 +422,23 @@ fn spelling_trees() -> Vec<TreeO> {
             });
         }
     }
-    for (si, input) in ["src/x/a.lua", "./src/x/a.lua", "src/./x/a.lua", "src/x/y/../a.lua", "./src/../src/x/./a.lua"].iter().enumerate() {
+    // single-file spellings: dot components, and EMPTY components (separator runs `/{2,3}` at every component
+    // boundary) without any dot component
+    for (si, input) in [
+        "src/x/a.lua",
+        "./src/x/a.lua",
+        "src/./x/a.lua",
+        "src/x/y/../a.lua",
+        "./src/../src/x/./a.lua",
+        "src//x/a.lua",
+        "src/x//a.lua",
+        "src///x/a.lua",
+        "src//x//a.lua",
+        "src/x///a.lua",
+    ]
+    .iter()
+    .enumerate()
+    {
         for (oi, (output, rel, existing)) in [("out", "a.lua", false), ("out", "a.lua", true), ("out/result.lua", "", false)].iter().enumerate() {
             let mut files: Vec<String> = vec!["src/a.lua".into(), "src/x/a.lua".into(), "src/x/y/b.lua".into()];
             if *existing {
@@ -1197,13 +1213,90 @@ fn part_b(report: &mut Report, only: Option<Vec<Case>>) {
     }
 }
 
+// ---------------------------------------------------------------------------------------------
+// Part C: spelling invariance on the real file system (a directory input's spelling is invisible with
+// memory resources: the walk yields the stored keys)
+// ---------------------------------------------------------------------------------------------
+
+fn part_c(report: &mut Report) {
+    let root = std::path::PathBuf::from(concat!(env!("CARGO_MANIFEST_DIR"), "/target")).join(format!("c20-fs-{}", std::process::id()));
+    let _ = std::fs::remove_dir_all(&root);
+    let content = "-- note\ndo end\nlocal a = 1 + 2\nreturn a\n";
+    let setup = || -> std::io::Result<()> {
+        std::fs::create_dir_all(root.join("proj/src/sub"))?;
+        for f in ["proj/src/a.lua", "proj/src/b.lua", "proj/src/sub/c.lua"] {
+            std::fs::write(root.join(f), content)?;
+        }
+        Ok(())
+    };
+    if let Err(e) = setup() {
+        report.notes.push(format!("part C skipped: cannot create {}: {}", root.display(), e));
+        return;
+    }
+    let root_text = root.to_string_lossy().to_string();
+    let config = "{generator:'retain_lines', apply_to_files:['**/proj/src/*.lua'], rules:['remove_comments', {rule:'remove_empty_do', skip_files:'**/proj/src/b.lua'}, {rule:'compute_expression', apply_to_files:['**/proj/src/a.*', 'nomatch/**']}]}";
+    let spellings: Vec<(String, String)> = vec![
+        ("canonical".into(), format!("{}/proj/src", root_text)),
+        ("doubled inner separator".into(), format!("{}/proj//src", root_text)),
+        ("doubled separator before the project".into(), format!("{}//proj/src", root_text)),
+        ("tripled and trailing".into(), format!("{}/proj///src/", root_text)),
+        ("dot component".into(), format!("{}/proj/./src", root_text)),
+        ("parent component".into(), format!("{}/proj/src/sub/..", root_text)),
+    ];
+    let mut results: Vec<(String, String, String)> = Vec::new();
+    for (i, (label, input)) in spellings.iter().enumerate() {
+        let out_dir = root.join(format!("out-{}", i));
+        let input_c = input.clone();
+        let out_c = out_dir.clone();
+        let run = std::panic::catch_unwind(move || -> Result<(), String> {
+            let resources = Resources::from_file_system();
+            let cfg: Configuration = json5::from_str(config).map_err(|e| e.to_string())?;
+            let options = Options::new(input_c).with_output(out_c).with_configuration(cfg);
+            let tree = process(&resources, options).map_err(|e| e.to_string())?;
+            tree.result().map_err(|errs| errs.iter().map(|e| e.to_string()).collect::<Vec<_>>().join("; "))
+        });
+        let mut text = match run {
+            Ok(Ok(())) => String::new(),
+            Ok(Err(e)) => format!("error: {}\n", e.replace(&root_text, "<root>")),
+            Err(_) => "panic\n".to_owned(),
+        };
+        for f in ["a.lua", "b.lua", "sub/c.lua"] {
+            match std::fs::read_to_string(out_dir.join(f)) {
+                Ok(c) => text.push_str(&format!("== {}\n{}\n", f, c)),
+                Err(_) => text.push_str(&format!("== {} (absent)\n", f)),
+            }
+        }
+        results.push((label.clone(), input.replace(&root_text, "<root>"), text));
+    }
+    // the statement on the canonical path: a.lua all three rules, b.lua without remove_empty_do and without
+    // compute_expression, sub/c.lua not processed
+    let expected = "== a.lua\n\n\nlocal a = 3\nreturn a\n\n== b.lua\n\ndo end\nlocal a = 1 + 2\nreturn a\n\n== sub/c.lua (absent)\n";
+    for (label, input, text) in &results {
+        report.case(Some(("part-c", input.clone())));
+        report.hist("part", "fs spelling invariance");
+        if text != expected {
+            report.violation(Violation {
+                kind: "oracle".into(),
+                check: "fs-spelling-invariance".into(),
+                what: format!(
+                    "file-system run with input `{}` ({}): filters `**/proj/src/*.lua` (top), `**/proj/src/b.lua` (skip), `**/proj/src/a.*` (apply) must select by the normalised path; got {:?}, expected {:?}",
+                    input, label, text, expected
+                ),
+                input: json!({"kind": "fs-spelling", "input": input, "config": config}),
+                failing_input_found: true,
+            });
+        }
+    }
+    let _ = std::fs::remove_dir_all(&root);
+}
+
 static SEED: std::sync::atomic::AtomicU64 = std::sync::atomic::AtomicU64::new(0);
 
 pub fn run(report: &mut Report, replay: Option<&str>) {
     report.rule = "Part A compares the real FilterPattern with the Lean reference glob on an exhaustive pattern x path grid \
         (every pair counts as an evaluation). Part B runs the real process() on memory trees with filters at one site \
         (exhaustive sweep over site x apply list x skip list) and at several sites (seeded random), on three fixed trees \
-        (inputs '', './src/../src/', a single file), on 27 input-spelling trees (directory / file input x spelling x output kind) and on seeded random trees with pattern pools derived from their paths; a case is non-trivial \
+        (inputs '', './src/../src/', a single file), on 42 input-spelling trees (directory / file input x spelling x output kind) and on seeded random trees with pattern pools derived from their paths; a case is non-trivial \
         when, by the reference matcher, at least one (file, site) verdict is yes and at least one is no, i.e. the filters \
         really discriminate; distinct = distinct (tree, pipeline, mode, filters)."
         .to_owned();
@@ -1231,6 +1324,10 @@ pub fn run(report: &mut Report, replay: Option<&str>) {
                     part_b(report, Some(vec![case]));
                     return;
                 }
+            }
+            Some("fs-spelling") => {
+                part_c(report);
+                return;
             }
             Some("glob") => {
                 let pattern = input["pattern"].as_str().unwrap_or("").to_owned();
@@ -1271,5 +1368,6 @@ pub fn run(report: &mut Report, replay: Option<&str>) {
         }
     }
     part_a(report);
+    part_c(report);
     part_b(report, None);
 }
